@@ -53,7 +53,7 @@ func VerifC01_History() {
 		vf.Reach("deferred-path")
 	}
 	w.nest = vf.Bound("nested-actions", 1, 2)
-	K := vf.Bound("k", 2, 3)
+	K := vf.Bound("k", 3, 4)
 	vf.Unwind(16)
 	for s := 0; s < K; s++ {
 		c01Step(w)
